@@ -279,7 +279,7 @@ func init() {
 		}
 		r.Bound = map[string]interface{}{"events_per_side": maxLen, "keys": keys, "times": times,
 			"scripts_per_side": len(scripts), "retraction_scripts_per_side": len(retrScripts)}
-		r.Rule = "every pair of valid per-side scripts (records [key,id]@t, strictly increasing watermarks, no late records, non-zero event times) x every interleaving of their events and end-of-stream, for inner/left/right/full joins; a second family with one key, retractions of present rows; state = (join kind, script pair, schedule prefix); non-trivial = schedule whose output contains at least one joined row and at least one forwarded watermark"
+		r.Rule = "every pair of valid per-side scripts (records [key,id]@t, strictly increasing watermarks, no late records, non-zero event times) x every interleaving of their events and end-of-stream, for inner/left/right/full joins (thorough tier: pairs of two 3-event scripts for the inner join only, pairs of at most 5 events in total for the outer joins); a second family with one key, retractions of present rows; state = (join kind, script pair, schedule prefix); non-trivial = schedule whose output contains at least one joined row and at least one forwarded watermark"
 		r.Assume("no late records", "non-zero event times", "hook H1 reports every message the join loop takes; exactly one input message is in flight at any time",
 			"consolidation is by row values (event times of output rows are C18's business)")
 
@@ -291,6 +291,11 @@ func init() {
 		for _, k := range joinKinds {
 			for _, l := range scripts {
 				for _, rr := range scripts {
+					// thorough: pairs of two full-length (3-event) scripts alone would be 49 M schedules; they are covered for the
+					// inner join only, every other kind takes the pairs with at most 5 events in total
+					if len(l)+len(rr) > 5 && k.Name != "inner" {
+						continue
+					}
 					jobs = append(jobs, job{k, l, rr})
 				}
 			}
